@@ -649,18 +649,22 @@ func Replay(eng *Engine, vc *VC, cfg checkCfg, scratch string) *ReplayResult {
 	if fn == nil {
 		return nil
 	}
-	if fn.Parent() != nil {
-		return &ReplayResult{Why: "closures cannot be called from a test"}
-	}
-	if fn.Pkg == nil {
-		return nil
-	}
 	m := parseModel(vc)
 	if m == nil {
 		return &ReplayResult{Why: "no model in solver output"}
 	}
-	if rr := replayWithDriver(eng, vc, m, cfg, scratch, fn); rr != nil {
+	top := fn
+	for top.Parent() != nil {
+		top = top.Parent()
+	}
+	if top.Pkg == nil {
+		return nil
+	}
+	if rr := replayWithDriver(eng, vc, m, cfg, scratch, top); rr != nil {
 		return rr
+	}
+	if fn.Parent() != nil {
+		return &ReplayResult{Why: "closures cannot be called from a test"}
 	}
 	g := &goBuilder{eng: eng, m: m, pkg: fn.Pkg.Pkg, imports: map[string]string{"fmt": "fmt", "testing": "testing"}, objs: map[string]string{}, strs: map[string]string{}}
 	var argVars []string
